@@ -2008,6 +2008,8 @@ func (p *parser) selectObject(child Node) (Node, error) {
 			}
 		case lexer.UnquotedIdentifierToken:
 			key = p.curr.Value
+		default:
+			return nil, &unexpectedTokenError{p.curr.Value}
 		}
 
 		if p.next.Type != lexer.ColonToken {
@@ -2062,6 +2064,8 @@ func (p *parser) selectObject(child Node) (Node, error) {
 				Child:  child,
 				Fields: fields,
 			}, nil
+		default:
+			return nil, &unexpectedTokenError{p.curr.Value}
 		}
 	}
 }
